@@ -3,7 +3,8 @@ import json
 import common
 
 PROPS = "RotoV.Props.C11"
-MODULES = ["RotoV.Lemmas.Lifetime", "RotoV.Lemmas.LifetimeOps", "RotoV.Model.Lifetime"]
+MODULES = ["RotoV.Lemmas.Lifetime", "RotoV.Lemmas.LifetimeOps", "RotoV.Lemmas.LifetimeKeep", "RotoV.Lemmas.LifetimeAddr",
+           "RotoV.Model.Lifetime", "RotoV.Model.LifetimeKeep", "RotoV.Model.LifetimeAddr"]
 
 
 def search(ctx):
@@ -13,7 +14,10 @@ def search(ctx):
     if ctx.impl_violations:
         return
     if ctx.build_harness("c11"):
-        ctx.harness("c11", ["run", ctx.seed + 7919, "thorough"], timeout=3000, name="search:c11")
+        # quick tier: the class representatives again, then random and short exhaustive histories for ~2.5 minutes
+        # (the harness stops by itself); thorough tier: the full thorough run
+        mode = "thorough" if ctx.tier == "thorough" else "search"
+        ctx.harness("c11", ["run", ctx.seed + 7919, mode], timeout=3000 if mode == "thorough" else 600, name="search:c11")
 
 
 def run(ctx):
